@@ -33,10 +33,17 @@ func TestWorker(t *testing.T) {
 			syncutil.SimHook = kernel.HookSite
 			syncutil.SimPoolGet = kernel.PoolGet
 			syncutil.SimPoolPut = kernel.PoolPut
+			if overlayHooks != nil {
+				overlayHooks()
+			}
 		},
 		Run: run,
 	})
 }
+
+// overlayHooks is set by autoyield_test.go when the check is built with the
+// statement-level yield overlay.
+var overlayHooks func()
 
 type ctxKey struct{}
 
@@ -258,14 +265,26 @@ func run(rc *kernel.RunCtx) {
 	logMw := httputil.NewLogMiddleware(base, mwLevel)
 
 	// Middleware list: the LogMiddleware at a drawn position among 0-3
-	// recording middlewares.
+	// recording middlewares; sometimes a second LogMiddleware in the chain.
 	nRec := tp.Choose(4)
 	pos := tp.Choose(nRec + 1)
+	pos2 := -1
+	if nRec > 0 && tp.Bool(1, 4) {
+		pos2 = tp.Choose(nRec + 1)
+		if pos2 == pos {
+			pos2 = -1
+		}
+	}
+	nLogMw := 1
 	var mws []httputil.Middleware
 	for j := 0; j <= nRec; j++ {
-		if j == pos {
+		switch j {
+		case pos:
 			mws = append(mws, logMwAt{w: w, mw: logMw, j: j})
-		} else {
+		case pos2:
+			nLogMw = 2
+			mws = append(mws, logMwAt{w: w, mw: httputil.NewLogMiddleware(base, mwLevel), j: j})
+		default:
 			mws = append(mws, recMw{w: w, j: j})
 		}
 	}
@@ -297,6 +316,16 @@ func run(rc *kernel.RunCtx) {
 			}
 			if tp.Bool(2, 3) {
 				sp.status = []int{200, 201, 204, 400, 404, 500, 503}[tp.Choose(7)]
+			}
+			// Requests made in-process need not have every field set.
+			if tp.Bool(1, 6) {
+				sp.raddr = ""
+			}
+			if tp.Bool(1, 8) {
+				sp.uri = ""
+			}
+			if tp.Bool(1, 10) {
+				sp.host = ""
 			}
 			r := httptest.NewRequest(sp.method, sp.url, strings.NewReader(sp.body))
 			r.Host = sp.host
@@ -406,9 +435,9 @@ func run(rc *kernel.RunCtx) {
 				nFinished++
 			}
 		}
-		if nInner != 1 || nFinished > 1 || (logEnabled && nFinished != 1) {
+		if nInner != 1 || nFinished > nLogMw || (logEnabled && nFinished != nLogMw) {
 			rc.Fail("log-records", "LogMiddleware.Wrap", fmt.Sprintf(
-				"request %d produced log records %v, want one record of the handler's own and (logging enabled: %v) one \"finished\"", sp.id, msgs, logEnabled))
+				"request %d produced log records %v, want the handler's own record and (logging enabled: %v) one \"finished\" per LogMiddleware (%d in the chain)", sp.id, msgs, logEnabled, nLogMw))
 
 			return
 		}
